@@ -230,9 +230,10 @@ class Built:
 
 def build_design(seed, index, flags, work, race=False):
     dj = designs.make_design(seed, index, flags)
-    wd = os.path.join(work, "d%d" % index)
+    wd = os.path.join(work, "d%d%s" % (index, "".join(f for f in flags if f.endswith("-design"))))
     os.makedirs(wd, exist_ok=True)
     b = Built(index, dj, wd)
+    b.flags = list(flags)
     with open(os.path.join(wd, "design.json"), "w") as f:
         f.write(dj)
     cmd = [designs.GENRUN, "run", "-design", os.path.join(wd, "design.json"), "-out", os.path.join(wd, "out"), "-glue"]
